@@ -20,8 +20,8 @@ void h_vc_repeat(void)
 	__CPROVER_assume(0 <= vi_arg1 && vi_arg1 <= 0x7ffffff0 && 0 <= rep_len && rep_len <= 4096);
 	RP.calls = 0; RP.bad = 0;
 	vc_repeat();
-	__CPROVER_assert(!RP.bad, "vc_repeat: what is pushed back is the recorded last change, all of it");
-	__CPROVER_assert(RP.calls == (vi_arg1 > 1 ? vi_arg1 : 1), "vc_repeat: 'N.' pushes the last change back N times ('.' once)");
+	H_ASSERT(!RP.bad, "vc_repeat: what is pushed back is the recorded last change, all of it");
+	H_ASSERT(RP.calls == (vi_arg1 > 1 ? vi_arg1 : 1), "vc_repeat: 'N.' pushes the last change back N times ('.' once)");
 #ifdef CANARY
 	__CPROVER_assert(0, "canary");
 #endif
@@ -135,21 +135,21 @@ void h_vc_put(void)
 	int cnt = vi_arg1 > 1 ? vi_arg1 : 1;
 	int r = vc_put(cmd);
 	if (!PI.has_reg || reg[0] == 0) {
-		__CPROVER_assert(r == 0 && PV.edit_calls == 0 && xrow == row0 && xoff == off0, "vc_put: an empty or unset register changes nothing");
+		H_ASSERT(r == 0 && PV.edit_calls == 0 && xrow == row0 && xoff == off0, "vc_put: an empty or unset register changes nothing");
 		return;
 	}
-	__CPROVER_assert(!PV.bad && PV.copies == cnt, "vc_put: exactly count copies of the register text are inserted, nothing else");
-	__CPROVER_assert(PV.edit_calls == 1 && PV.edit_text == g_sbtext, "vc_put: one edit with the assembled text");
+	H_ASSERT(!PV.bad && PV.copies == cnt, "vc_put: exactly count copies of the register text are inserted, nothing else");
+	H_ASSERT(PV.edit_calls == 1 && PV.edit_text == g_sbtext, "vc_put: one edit with the assembled text");
 	if (PI.lnmode) {
 		/* line-wise: the copies become new lines after (p) or before (P) the cursor line; nothing is replaced */
-		__CPROVER_assert(PV.edit_beg == row0 + (cmd == 'p') && PV.edit_end == PV.edit_beg && xrow == PV.edit_beg, "vc_put: a line-wise register is opened below (p) / above (P) the cursor line, replacing nothing; the cursor goes to the first new line");
+		H_ASSERT(PV.edit_beg == row0 + (cmd == 'p') && PV.edit_end == PV.edit_beg && xrow == PV.edit_beg, "vc_put: a line-wise register is opened below (p) / above (P) the cursor line, replacing nothing; the cursor goes to the first new line");
 	} else {
 		/* character-wise: the cursor line is rebuilt as prefix + copies + suffix, split at the cursor character (after it for p, before it for P) */
 		int first = PI.nlines == 0 ? '\n' : line[0];	/* an empty buffer is treated as one empty line */
 		int at = PI.ne + (first != '\n' && cmd == 'p');
-		__CPROVER_assert(PV.step == 3 && PV.sub_off == at, "vc_put: the line is split after (p) / before (P) the cursor character and the copies go in between");
-		__CPROVER_assert(PV.edit_beg == row0 && PV.edit_end == row0 + 1 && xrow == row0, "vc_put: exactly the cursor line is replaced");
-		__CPROVER_assert(xoff == at + PI.reglen_chars * cnt - 1, "vc_put: the cursor lands on the last inserted character (counted in characters, not bytes)");
+		H_ASSERT(PV.step == 3 && PV.sub_off == at, "vc_put: the line is split after (p) / before (P) the cursor character and the copies go in between");
+		H_ASSERT(PV.edit_beg == row0 && PV.edit_end == row0 + 1 && xrow == row0, "vc_put: exactly the cursor line is replaced");
+		H_ASSERT(xoff == at + PI.reglen_chars * cnt - 1, "vc_put: the cursor lands on the last inserted character (counted in characters, not bytes)");
 	}
 #ifdef CANARY
 	__CPROVER_assert(0, "canary");
